@@ -677,6 +677,14 @@ static void ReadMacro(void) {
     CodeLen         = 0;
     Context.ErrFlag = False;
 
+    /* in a branch that is not assembled, nothing is defined, checked or
+       exported: just skip to the matching ENDM */
+
+    if (!IfAsm) {
+        AddWaitENDM_Processor(WaitENDM_Processor);
+        return;
+    }
+
     /* Makronamen pruefen */
     /* Definition nur im ersten Pass */
 
